@@ -364,10 +364,10 @@ def replay_behaviour(ctx: Ctx, loop: Any, beh: List[Any], consts: dict, src: str
     if drift:
         parts = drift.split(":")
         ctx.drift(parts[0] if parts[0] in ("ready-order", "ready-after-tick", "result", "timer-order") else ":".join(parts[:3]))
-        ctx.extra.setdefault("drift_examples", [])
-        if len(ctx.extra["drift_examples"]) < 5:
-            ctx.extra["drift_examples"].append({"drift": drift, "side": consts["side"],
-                                                "actions": [a for a, _ in beh[1:]][:40]})
+        kind = drift.split(":")[0]
+        exs = ctx.extra.setdefault("drift_examples", {})
+        if kind not in exs:        # one example per kind of drift
+            exs[kind] = {"drift": drift, "side": consts["side"], "actions": [a for a, _ in beh[1:]][:60]}
     tr = x.finish()
     tr["src"] = src
     tr["followed"] = drift is None
